@@ -11,6 +11,7 @@ import (
 
 	"verif/harness/fw"
 	"verif/harness/oracle/bech32m"
+	"verif/harness/prop/bechscan"
 )
 
 func init() {
@@ -245,6 +246,27 @@ func gen(g *fw.Gen) {
 			}
 		}
 		g.Emit("random", fw.Pack([]byte(hrpOf(r, hl, r.Intn(6))), dataOf(r, dl, r.Intn(4))))
+	}
+	// human-readable parts an implementation may treat specially (deployed prefixes, incl. this repository's own)
+	idx = 0
+	for rep := g.Pick(2, 40); rep > 0; rep-- {
+		for _, h := range bechscan.WellKnownHRPs {
+			for _, up := range []bool{false, true} {
+				for _, dl := range []int{0, 1, 20, 32, 33, 1 + r.Intn(40)} {
+					hh := h
+					if up {
+						hh = bech32m.Upper(h)
+					}
+					for len(hh)+1+nsyms(dl)+bech32m.ChecksumLen > bech32m.MaxLen && dl > 0 {
+						dl--
+					}
+					if g.Own(idx) {
+						g.Emit("random", fw.Pack([]byte(hh), dataOf(r, dl, 2)))
+					}
+					idx++
+				}
+			}
+		}
 	}
 	// invalid human-readable parts with data short enough that only the hrp decides
 	short := func() []byte { return dataOf(r, r.Intn(12), 2) }
